@@ -1,6 +1,6 @@
 (* The current slot tables list every 5-of-6 / 5-of-7 slot combination (C18, re-proved from the
    regenerated data on every run). *)
-From CKC Require Import Base.Prelude Base.Reflect Base.Combs Proofs.C18 Proofs.GenericTable.
+From CKC Require Import Base.Prelude Base.Reflect Base.Combs Proofs.SlotTables Proofs.GenericTable.
 From CKC Require Import Gen.Decks.
 Open Scope N_scope.
 
